@@ -120,8 +120,48 @@ def canon_pgen(g):
     out.append(('start', g.start_nonterminal))
     return hashlib.sha1(json.dumps(out).encode()).hexdigest()
 
+def interpreter_state():
+    """Process-wide interpreter settings a library call must not leave changed."""
+    import gc
+    import warnings
+    import locale
+    import threading
+    st = {
+        'recursionlimit': RECURSION_LIMIT_SEEN[0] if RECURSION_LIMIT_SEEN[0] is not None else sys.getrecursionlimit(),
+        'gc.enabled': gc.isenabled(), 'gc.threshold': gc.get_threshold(),
+        'warnings.filters': [(f[0], getattr(f[1], 'pattern', f[1]), getattr(f[2], '__name__', str(f[2])),
+                              getattr(f[3], 'pattern', f[3]), f[4]) for f in warnings.filters],
+        'switchinterval': sys.getswitchinterval(), 'stack_size': threading.stack_size(),
+        'cwd': os.getcwd(), 'environ': hashlib.sha1(repr(sorted(os.environ.items())).encode()).hexdigest(),
+        'locale': locale.setlocale(locale.LC_ALL), 'sys.path': list(sys.path),
+        'excepthook': getattr(sys.excepthook, '__qualname__', '?'), 'int_max_str_digits': sys.get_int_max_str_digits(),
+    }
+    return hashlib.sha1(json.dumps(st, default=str, sort_keys=True).encode()).hexdigest(), st
+
+
+RECURSION_LIMIT_SEEN = [None]
+
+
+class deep_recursion:
+    """The fingerprint walks deep object graphs; the calls under test run with the default limit.
+    The limit that was in force is remembered so that the fingerprint can report it."""
+    def __enter__(self):
+        self.old = sys.getrecursionlimit()
+        RECURSION_LIMIT_SEEN[0] = self.old
+        sys.setrecursionlimit(20000)
+
+    def __exit__(self, *a):
+        sys.setrecursionlimit(self.old)
+        RECURSION_LIMIT_SEEN[0] = None
+
+
 def fingerprint(detail=False):
-    per = {}
+    with deep_recursion():
+        return _fingerprint(detail)
+
+
+def _fingerprint(detail=False):
+    per = {'<interpreter>': interpreter_state()[0]}
     for name, mod in parso_modules():
         c = Canon()
         for k in sorted(vars(mod)):
@@ -171,6 +211,14 @@ def _summ(o):
 
 
 def shallow_state():
+    with deep_recursion():
+        st = _shallow_state()
+        for k, v in interpreter_state()[1].items():
+            st['<interpreter>.' + k] = ('scalar', hashlib.sha1(repr(v).encode()).hexdigest()[:16])
+        return st
+
+
+def _shallow_state():
     st = {}
     for name, mod in parso_modules():
         for k in sorted(vars(mod)):
